@@ -9,6 +9,14 @@ COMMON_NOTE = ("Trusted: Coq 8.16.1 kernel and its VM (vm_compute; no native_com
                "(virtual clock, scheduler, canonicalisation, case printer). ")
 # id -> (text, note, technique, design_ref)
 CLAIMED = {
+ "C02": ("Theorems over the Gallina image of simple.py / iterator.py / ttl.py on the TTL-map spec: an invariant (every store entry is the stored form of an "
+         "accepted execution of that key with that execution's deadline) holds after every history; in any such state a call executes iff there is no live "
+         "entry, returns its own outcome when it executes, otherwise the outcome of an accepted execution still within ttl, and rejected outcomes never enter "
+         "the store; the iterator either runs or replays, whole and in order, the chunks of exactly one recorded cacheable run within ttl (runs may take time), "
+         "for arbitrary items; every component duration string denotes the sum of its components. Decorated functions/generators on the real facade are compared "
+         "with the model call by call under the virtual clock on every run.",
+         "Wrapped function = script; conditions enumerated by what they return; key derivation is C08; single caller (C07); store within capacity.",
+         "Coq proof (store invariant by induction over histories; chunk-store invariant; parser induction) + differential correspondence under virtual time", "3/C02"),
  "C08": ("Theorems: for every signature, template over its parameters and two call forms that Python's binding maps to the same arguments, the Gallina image "
          "of get_cache_key (keyword-only shortcut, bind+apply_defaults path, str.format fast path vs Formatter fallback) returns the same key and does not raise; "
          "for ':'-separated templates (the automatic one always is) argument maps differing at a mentioned field by separable values render to different keys "
